@@ -267,3 +267,50 @@ Proof.
   - match goal with |- context [if negb ?b then _ else _] => destruct (negb b) end; cbn [fst]; [reflexivity|].
     destruct (contains (typename_helper :: ss) "id"); cbn [fst]; reflexivity.
 Qed.
+
+(* ---- no response key of a level is lost: a field selected directly on a level has a field with its response key in
+   what the sanitizer leaves for that level (the first selection of a key wins, later ones are dropped: the listed
+   duplicate-response-key shape) ---- *)
+Definition has_alias (l : list ssel) (a : string) : Prop :=
+  exists n ty d sub, In (SanField a n ty d sub) l.
+
+Lemma add_to_result_keeps s new x : In x s -> In x (add_to_result s new).
+Proof. intros H. unfold add_to_result. apply in_app_iff. left. exact H. Qed.
+Lemma add_to_result_alias s a n ty d sub : has_alias (add_to_result s [SanField a n ty d sub]) a.
+Proof.
+  unfold add_to_result. cbn [filter alias_of].
+  destruct (existsb (fun e => match alias_of e with Some a' => a' =? a | None => false end) s) eqn:E; cbn [negb].
+  - apply existsb_exists in E as (e & He & Ha). destruct e as [a' n' ty' d' sub'|]; cbn [alias_of] in Ha; [|discriminate].
+    apply String.eqb_eq in Ha. subst a'. exists n', ty', d', sub'. apply in_app_iff. left. exact He.
+  - exists n, ty, d, sub. apply in_app_iff. right. left. reflexivity.
+Qed.
+Lemma has_alias_mono s new a : has_alias s a -> has_alias (add_to_result s new) a.
+Proof. intros (n & ty & d & sub & H). exists n, ty, d, sub. apply add_to_result_keeps, H. Qed.
+
+Lemma san_sel_keeps_aliases tm sc ip s result scr a : has_alias result a -> has_alias (fst (san_sel tm sc ip s (result, scr))) a.
+Proof.
+  intros H. destruct s as [a0 n ty d [|y sub]|c o sub].
+  - cbn [san_sel fst]. apply has_alias_mono, H.
+  - rewrite san_sel_field. destruct (sanitize tm sc (y :: sub) (ip ++ [a0])) as [child sf].
+    destruct (add_scrub_fields tm sc child ty) as [child' added]. cbn [fst]. apply has_alias_mono, H.
+  - rewrite san_sel_frag. destruct (sanitize tm sc sub ip) as [child sf].
+    destruct (add_scrub_fields tm sc child c) as [child' added].
+    destruct (kind_of sc o); cbn [fst]; apply has_alias_mono, H.
+Qed.
+Lemma level_keeps_aliases tm sc ip ss : forall acc a, has_alias (fst acc) a -> has_alias (fst (level tm sc ip ss acc)) a.
+Proof.
+  induction ss as [|s r IH]; intros acc a H; [exact H|]. cbn [level fold_left]. apply IH.
+  destruct acc as [result scr]. apply san_sel_keeps_aliases, H.
+Qed.
+
+Theorem selected_response_keys_survive tm sc ss ip a n ty d sub :
+  In (SanField a n ty d sub) ss -> has_alias (fst (sanitize tm sc ss ip)) a.
+Proof.
+  intros Hin. rewrite sanitize_level. cbn [fst]. apply in_split in Hin as (l1 & l2 & ->).
+  unfold level. rewrite fold_left_app. cbn [fold_left]. apply level_keeps_aliases.
+  match goal with |- context [san_sel _ _ _ _ ?acc] => destruct acc as [result scr] end.
+  destruct sub as [|y sub'].
+  - cbn [san_sel fst]. apply add_to_result_alias.
+  - rewrite san_sel_field. destruct (sanitize tm sc (y :: sub') (ip ++ [a])) as [child sf].
+    destruct (add_scrub_fields tm sc child ty) as [child' added]. cbn [fst]. apply add_to_result_alias.
+Qed.
